@@ -407,12 +407,46 @@ def str_method(ex, s, name, args, kw, st):
         if not parts:
             return [(st, '')]
         return [(st, SStr(z3.Concat(*parts) if len(parts) > 1 else parts[0]))]
+    if name in ('strip', 'lstrip', 'rstrip') and len(args) == 1 and isinstance(args[0], (str, SStr)):
+        lib('str.%s(chars) (uninterpreted; result is a contiguous piece of the argument)' % name)
+        fn = z3.Function('py_' + name + '_chars', z3.StringSort(), z3.StringSort(), z3.StringSort())
+        c = ex.z_str(args[0])
+        r = fn(zs, c)
+        st.assume(z3.Contains(zs, r))
+        # for a one-character argument the result is pinned down: s == c* ++ r ++ c*, r neither starts nor ends with c
+        pre, suf = fresh('strip_pre', z3.StringSort()), fresh('strip_suf', z3.StringSort())
+        one = [zs == z3.Concat(pre, r, suf), z3.InRe(pre, z3.Star(z3.Re(c))), z3.InRe(suf, z3.Star(z3.Re(c)))]
+        if name != 'rstrip':
+            one.append(z3.Not(z3.PrefixOf(c, r)))
+        else:
+            one.append(pre == z3.StringVal(''))
+        if name != 'lstrip':
+            one.append(z3.Not(z3.SuffixOf(c, r)))
+        else:
+            one.append(suf == z3.StringVal(''))
+        st.assume(z3.Implies(z3.Length(c) == 1, z3.And(*one)))
+        return [(st, SStr(r))]
     if name in ('strip', 'lstrip', 'rstrip') and not args:
         lib('str.%s() (uninterpreted; result is a contiguous piece of the argument)' % name)
         fn = z3.Function('py_' + name, z3.StringSort(), z3.StringSort())
         r = fn(zs)
         st.assume(z3.Contains(zs, r))
+        if getattr(getattr(ex, 'contract', None), 'precise_strip', False):
+            # s == ws* ++ r ++ ws*, r neither starts nor ends with a whitespace character (str.isspace)
+            pre, suf = fresh('strip_pre', z3.StringSort()), fresh('strip_suf', z3.StringSort())
+            ws = ws_re()
+            st.assume(z3.And(zs == z3.Concat(pre, r, suf), z3.InRe(pre, z3.Star(ws)), z3.InRe(suf, z3.Star(ws))))
+            if name != 'rstrip':
+                st.assume(z3.Not(starts_ws(r)))
+            else:
+                st.assume(pre == z3.StringVal(''))
+            if name != 'lstrip':
+                st.assume(z3.Not(ends_ws(r)))
+            else:
+                st.assume(suf == z3.StringVal(''))
         return [(st, SStr(r))]
+    if name == 'join' and isinstance(args[0], Opaque) and args[0].name == 'genexp':
+        return [(st, fresh_str('joined'))]
     if name == 'join':
         h = getattr(ex, 'str_join', None)
         if h:
@@ -424,6 +458,26 @@ def str_method(ex, s, name, args, kw, st):
         if r is not NotImplemented:
             return r
     raise OutsideSubset('str.%s' % name)
+
+
+_WS = None
+
+
+def ws_re():
+    """the one-character regular language of Python's str.isspace() (computed from the running interpreter)"""
+    global _WS
+    if _WS is None:
+        chars = [chr(c) for c in range(0x30000) if chr(c).isspace()]
+        _WS = z3.Union(*[z3.Re(z3.StringVal(c)) for c in chars])
+    return _WS
+
+
+def ends_ws(z):
+    return z3.InRe(z, z3.Concat(z3.Full(z3.ReSort(z3.StringSort())), ws_re()))
+
+
+def starts_ws(z):
+    return z3.InRe(z, z3.Concat(ws_re(), z3.Full(z3.ReSort(z3.StringSort()))))
 
 
 # ------------------------------------------------------------------------------- list / dict methods
